@@ -55,6 +55,7 @@ enum Expr {
     Wr(usize, Box<Expr>),
     Sel(usize, usize), // selector node, index of the key in its trigger list
     New(usize),        // instantiate template node k here (a memo / an effect created at run time)
+    Cleanup(usize),    // Owner::on_cleanup(move || { signal_j.get(); }): value 0, no event
 }
 
 fn parse_expr(s: &Sexp) -> Expr {
@@ -70,6 +71,7 @@ fn parse_expr(s: &Sexp) -> Expr {
         7 => Expr::Wr(s.at(1).num() as usize, b(2)),
         8 => Expr::Sel(s.at(1).num() as usize, s.at(2).num() as usize),
         9 => Expr::New(s.at(1).num() as usize),
+        10 => Expr::Cleanup(s.at(1).num() as usize),
         _ => Expr::Const(0),
     }
 }
@@ -609,6 +611,22 @@ fn eval(e: &Expr, hs: &mut Vec<Handle>) -> i64 {
         }
         Expr::New(k) => {
             instantiate(*k, hs);
+            0
+        }
+        Expr::Cleanup(j) => {
+            // the callback runs when the owner of the running body is cleaned up (before its next
+            // run, or at disposal); what it reads is none of the body's business: no event
+            let h = hs[*j].clone();
+            Owner::on_cleanup(move || {
+                let _zone = reactive_graph::diagnostics::SpecialNonReactiveZone::enter();
+                let _ = match &h {
+                    Handle::ArcRw(s) => s.try_get(),
+                    Handle::Pair(r, _) => r.try_get(),
+                    Handle::Rw(s) => s.try_get(),
+                    Handle::ArcPair(r, _) => r.try_get(),
+                    _ => None,
+                };
+            });
             0
         }
         Expr::Sel(e, j) => match &hs[*e] {
